@@ -4,7 +4,8 @@
    every generated container and on the committed reference corpus by the check. *)
 From Coq Require Import List Arith NArith.
 From Jbk Require Import Base.ListExtra Base.Bytes Base.Crc Base.Parser Format.Structs Format.Roundtrips
-  Content.Pack Dir.Layout Dir.Descr Dir.Variants Manifest.SetLocation Container.Canon.
+  Content.Pack Dir.Layout Dir.Descr Dir.Variants Manifest.SetLocation Container.Canon
+  Dir.EntryStore Dir.EntryStoreVariants Dir.DirFilePack.
 Import ListNotations.
 
 Theorem C14_pack_header : forall h r, wf_pack_header h -> p_pack_header (ser_pack_header h ++ r) = Ok (h, r).
@@ -53,6 +54,29 @@ Theorem C14_cluster_tail : forall comp raw lens r,
 Proof. exact p_tail_ser. Qed.
 Theorem C14_property_descriptor : forall p r, wf_wprop p -> p_rawprop (ser_wprop p ++ r) = Ok (raw_of p, r).
 Proof. exact p_rawprop_ser. Qed.
+(* value store tails, both kinds; entry store tails (layout descriptors) without and with variants *)
+Theorem C14_plain_value_store_tail : forall sz r, (sz < 2 ^ 64)%N ->
+  p_vs_tail (ser_vs_tail_plain sz ++ r) = Ok (VTPlain sz, r).
+Proof. exact p_vs_tail_plain. Qed.
+Theorem C14_indexed_value_store_tail : forall w lens r,
+  1 <= w <= 8 -> lens <> [] -> (N.of_nat (length lens) <= 65535)%N -> (sumN lens < 256 ^ N.of_nat w)%N ->
+  p_vs_tail (ser_vs_tail_indexed w lens ++ r) = Ok (VTIndexed (0%N :: ends lens) (sumN lens), r).
+Proof. exact p_vs_tail_indexed. Qed.
+Theorem C14_entry_store_tail : forall count shape r,
+  (count < 2 ^ 32)%N -> length shape <= 255 -> (N.of_nat (psize (map raw_of shape)) < 65536)%N ->
+  Forall wf_wprop shape -> Forall (fun w => match w with WVariantId _ => False | _ => True end) shape ->
+  p_layout (ser_flat_tail count (psize (map raw_of shape)) shape ++ r) = Ok (flat_layout count shape, r).
+Proof. exact flat_layout_parsed. Qed.
+Theorem C14_entry_store_tail_with_variants : forall count common vshapes vsize r,
+  (count < 2 ^ 32)%N -> vshapes <> [] -> length vshapes <= 255 ->
+  length (common ++ variant_descrs vshapes) <= 255 ->
+  (N.of_nat (psize (raws common) + 1 + vsize) < 65536)%N ->
+  Forall wf_wprop (common ++ variant_descrs vshapes) -> no_vid common ->
+  Forall (fun v => no_vid (snd v) /\ psize (raws (snd v)) = vsize) vshapes ->
+  p_layout (ser_variant_tail count (psize (raws common) + 1 + vsize) common vshapes ++ r) =
+    Ok (variant_layout count common vshapes vsize, r).
+Proof. exact variant_layout_parsed. Qed.
+
 Theorem C14_block_checksum : forall data, check_block (mk_block data) = true.
 Proof. exact check_block_mk. Qed.
 Theorem C14_block_read_back : forall pre data post, read_block (pre ++ mk_block data ++ post) (lenN pre) (lenN data) = Ok data.
@@ -84,3 +108,7 @@ Print Assumptions C14_property_descriptor.
 Print Assumptions C14_block_checksum.
 Print Assumptions C14_block_read_back.
 Print Assumptions C14_header_tail_mirror.
+Print Assumptions C14_plain_value_store_tail.
+Print Assumptions C14_indexed_value_store_tail.
+Print Assumptions C14_entry_store_tail.
+Print Assumptions C14_entry_store_tail_with_variants.
